@@ -722,16 +722,19 @@ class Node(
                     # already both very annoying on their own...
                     from pyiron_workflow.workflow import Workflow
 
+                    self.parent.starting_nodes = data_tree_starters
                     if isinstance(self.parent, Workflow):
                         automated = self.parent.automate_execution
                         self.parent.automate_execution = False
-
-                    self.parent.starting_nodes = data_tree_starters
-                    self.parent.run()
-
-                    # And revert our workflow hack
-                    if isinstance(self.parent, Workflow):
-                        self.parent.automate_execution = automated
+                        try:
+                            self.parent.run()
+                        finally:
+                            # And revert our workflow hack, also when the run fails
+                            self.parent.automate_execution = automated
+                    else:
+                        # The parent only drives the upstream run here, it has not run
+                        # itself: its own signals must not start its siblings
+                        self.parent.run(emit_ran_signal=False)
         finally:
             # No matter what, restore the original connections and labels afterwards
             for modified_label, node in nodes.items():
